@@ -68,7 +68,7 @@ type jerror struct {
 
 func (e *jerror) Error() string { return fmt.Sprintf("offset %d: %s", e.off, e.msg) }
 
-const refMaxDepth = 2000 // documents nested deeper are out of scope (never generated)
+const refMaxDepth = 12000 // documents nested deeper are out of scope (never generated; the decoder's own limit is 10000)
 
 type jparser struct {
 	b     []byte
